@@ -49,9 +49,34 @@ Dist2(s, z) == LET y == Sub(R(z), s.p) IN Div(Mul(y, y), S(s))
 (* symmetric by construction (pv stored once); positive-definite: leading minors *)
 SPD(s) == Pos(s.pp) /\ Pos(Sub(Mul(s.pp, s.vv), Mul(s.pv, s.pv)))
 
+(* ---- the same recurrence with rational measurements and explicit noise variances (for the scaling law below) ---- *)
+InitiateQ(zq, sp2, sv2) == [p |-> zq, v |-> R(0), pp |-> Mul(R(4), sp2), pv |-> R(0), vv |-> Mul(R(100), sv2)]
+PredictQ(s, sp2, sv2) == [p  |-> Add(s.p, s.v), v |-> s.v,
+                          pp |-> Add(Add(Add(s.pp, Mul(R(2), s.pv)), s.vv), sp2),
+                          pv |-> Add(s.pv, s.vv),
+                          vv |-> Add(s.vv, sv2)]
+UpdateQ(s, zq, sp2) == LET sv == Add(s.pp, sp2)  kp == Div(s.pp, sv)  kv == Div(s.pv, sv)  y == Sub(zq, s.p) IN
+                       [p  |-> Add(s.p, Mul(kp, y)), v |-> Add(s.v, Mul(kv, y)),
+                        pp |-> Sub(s.pp, Mul(kp, s.pp)),
+                        pv |-> Sub(s.pv, Mul(kp, s.pv)),
+                        vv |-> Sub(s.vv, Mul(kv, s.pv))]
+Dist2Q(s, zq, sp2) == LET y == Sub(zq, s.p) IN Div(Mul(y, y), Add(s.pp, sp2))
+RunQ(q0, q1, q2, q3, sp2, sv2) ==
+  LET s0 == InitiateQ(q0, sp2, sv2)  s1 == PredictQ(s0, sp2, sv2)  s2 == UpdateQ(s1, q1, sp2)
+      s3 == PredictQ(s2, sp2, sv2)   s4 == UpdateQ(s3, q2, sp2)    s5 == PredictQ(s4, sp2, sv2)
+  IN [s1 |-> s1, s2 |-> s2, s3 |-> s3, s4 |-> s4, s5 |-> s5, d |-> Dist2Q(s5, q3, sp2)]
+(* Scaling law: measurements c + k (z - c) and standard deviations k sigma give means c + k (p - c), velocities k v,
+   covariances k^2 P and the same distance.  ScaledOK compares the run at the scaled inputs with the scaled run. *)
+ScaleP(x, c, k) == Add(R(c), Mul(k, Sub(x, R(c))))
+ScaleS(s, c, k) == [p |-> ScaleP(s.p, c, k), v |-> Mul(k, s.v), pp |-> Mul(Mul(k, k), s.pp), pv |-> Mul(Mul(k, k), s.pv), vv |-> Mul(Mul(k, k), s.vv)]
 Run(z0, z1, z2, z3) ==
   LET s0 == Initiate(z0)  s1 == Predict(s0)  s2 == Update(s1, z1)
       s3 == Predict(s2)   s4 == Update(s3, z2)  s5 == Predict(s4)
   IN [s1 |-> s1, s2 |-> s2, s3 |-> s3, s4 |-> s4, s5 |-> s5, d |-> Dist2(s5, z3),
       spd |-> IF SPD(s0) /\ SPD(s1) /\ SPD(s2) /\ SPD(s3) /\ SPD(s4) /\ SPD(s5) THEN 1 ELSE 0]
+ScaledOK(z0, z1, z2, z3, k) ==
+  LET r == Run(z0, z1, z2, z3)
+      q == RunQ(R(z0), ScaleP(R(z1), z0, k), ScaleP(R(z2), z0, k), ScaleP(R(z3), z0, k), Mul(Mul(k, k), SigP2), Mul(Mul(k, k), SigV2))
+  IN /\ q.s1 = ScaleS(r.s1, z0, k) /\ q.s2 = ScaleS(r.s2, z0, k) /\ q.s3 = ScaleS(r.s3, z0, k)
+     /\ q.s4 = ScaleS(r.s4, z0, k) /\ q.s5 = ScaleS(r.s5, z0, k) /\ q.d = r.d
 =============================================================================
